@@ -24,7 +24,8 @@ RULE = ("one run = graph + 1-4 groups built from intended walks/sets in a random
 PROBES = ["style_segments", "style_edges", "style_alternating", "style_mixed", "nested_plus", "nested_minus",
           "multiline_o", "multiline_u", "group_before_items", "reversed_edge_traversal", "noncontiguous",
           "ambiguous", "single_edge_item", "set_with_path", "set_nested", "walk_len_ge4", "contradicting_tags", "reader_during_delivery",
-          "early_answer", "early_error"]
+          "early_answer", "early_error", "nested2", "nested2_minus", "sub_edge_boundary",
+          "unnamed_edge_induced"]
 
 
 def edge_line(eid, a, oa, b, ob, seglen, rng):
@@ -43,12 +44,16 @@ def edge_line(eid, a, oa, b, ob, seglen, rng):
                       G.pos_str(e2, lb), "*"])
 
 
-def steps_from(cur, edges):
-    """possible next steps from oriented segment cur: [(eid, orient, next)]"""
+def steps_from(cur, edges, unnamed=False):
+    """possible next steps from oriented segment cur: [(eid, orient, next)]; edges without identifier
+    ('*', internal ids '*<n>') cannot be listed by a group and are not walked, but they count when an edge
+    has to be implied (unnamed=True)"""
     out = []
     for (eid, a, oa, b, ob) in edges:
         if a == b and oa != ob:
             continue      # hairpin edges are not walked (both readings start at the same end)
+        if eid[:1] == "*" and not unnamed:
+            continue
         if (a, oa) == cur:
             out.append((eid, "+", (b, ob)))
         if (b, inv(ob)) == cur:
@@ -57,7 +62,7 @@ def steps_from(cur, edges):
 
 
 def fitting(prev, cur, edges):
-    return [(eid, o) for (eid, o, nxt) in steps_from(prev, edges) if nxt == cur]
+    return [(eid, o) for (eid, o, nxt) in steps_from(prev, edges, unnamed=True) if nxt == cur]
 
 
 def loose_fitting(prev, cur, edges):
@@ -75,7 +80,8 @@ def loose_fitting(prev, cur, edges):
 
 
 def implied_ok(prev, cur, edges):
-    return len(fitting(prev, cur, edges)) == 1 and len(loose_fitting(prev, cur, edges)) == 1
+    f = fitting(prev, cur, edges)
+    return len(f) == 1 and f[0][0][:1] != "*" and len(loose_fitting(prev, cur, edges)) == 1
 
 
 def simple(walk):
@@ -126,6 +132,50 @@ def render_items(rng, walk, edges, style):
     return None
 
 
+def nest(wr, walk, edges, depth, lead_ok, trail_ok, can_drop, mk_name, gl, groups):
+    """Items of an ordered group whose captured walk is `walk`, written with nested paths up to `depth` levels.
+    A nested path may begin / end with an *edge* item (its boundary segment is then supplied by the edge) only
+    where inlining its items and inlining its captured path coincide: next to an explicit edge item of the
+    enclosing list, or at the boundary of a list that is itself allowed to begin / end with an edge."""
+    nsegs = (len(walk) + 1) // 2
+    if depth > 0 and nsegs >= 2 and wr.random() < 0.85:
+        # nested paths at the boundary of the enclosing list are favoured: there the kind of the boundary item
+        # (segment or edge) of the nested path is what the enclosing lists inherit
+        i0 = 0 if wr.random() < 0.5 else wr.randint(0, nsegs - 2)
+        j0 = nsegs - 1 if wr.random() < 0.4 else wr.randint(i0 + 1, nsegs - 1)
+        sub = walk[2 * i0: 2 * j0 + 1]
+        pre = list(walk[:2 * i0])          # s0 e1 ... e_i0  (ends with the junction edge)
+        post = list(walk[2 * j0 + 1:])     # e_j0+1 s ...    (begins with the junction edge)
+        pre_explicit = bool(pre) and (wr.random() < 0.6 or not implied_ok(pre[-2], sub[0], edges))
+        post_explicit = bool(post) and (wr.random() < 0.6 or not implied_ok(sub[-1], post[1], edges))
+        if pre and not pre_explicit:
+            pre = pre[:-1]
+        if post and not post_explicit:
+            post = post[1:]
+        sub_lead = pre_explicit or (not pre and lead_ok)
+        sub_trail = post_explicit or (not post and trail_ok)
+        sign = wr.choice("+-")
+        subwalk = sub if sign == "+" else reverse_walk(sub)
+        if sign == "-":
+            sub_lead, sub_trail = sub_trail, sub_lead
+        subname = mk_name()
+        sub_items = nest(wr, subwalk, edges, depth - 1, sub_lead, sub_trail, can_drop, mk_name, gl, groups)
+        gl.append(("O", subname, sub_items, []))
+        groups.append({"rt": "O", "name": subname, "expect": subwalk, "style": "sub"})
+        if pre and lead_ok and can_drop and len(pre) >= 2 and wr.random() < 0.4:
+            pre = pre[1:]
+        if post and trail_ok and can_drop and len(post) >= 2 and wr.random() < 0.4:
+            post = post[:-1]
+        return ["%s%s" % x for x in pre] + [subname + sign] + ["%s%s" % x for x in post]
+    items = list(walk)
+    if can_drop and len(items) >= 3:
+        if lead_ok and wr.random() < 0.5:
+            items = items[1:]
+        if trail_ok and len(items) >= 2 and wr.random() < 0.5:
+            items = items[:-1]
+    return ["%s%s" % x for x in items]
+
+
 def gen(streams, tier, i):
     cfg = streams.get("config")
     dr = streams.get("document")
@@ -144,9 +194,12 @@ def gen(streams, tier, i):
         if key in seen_pairs and dr.random() < 0.8:
             continue
         seen_pairs.add(key)
-        edges.append(("e%d" % (j + 1), a, oa, b, ob))
+        # some edges have no identifier: they cannot be listed, but they belong to induced sets like any other
+        edges.append((("*%d" if dr.random() < 0.2 else "e%d") % (j + 1), a, oa, b, ob))
+    edge_lines = {}
     for e in edges:
-        lines.append(edge_line(e[0], e[1], e[2], e[3], e[4], seglen, dr))
+        lines.append(edge_line("*" if e[0][:1] == "*" else e[0], e[1], e[2], e[3], e[4], seglen, dr))
+        edge_lines[e[0]] = lines[-1]
     groups = []       # dicts with expectations
     gl = []
     wr = streams.get("history")
@@ -182,8 +235,20 @@ def gen(streams, tier, i):
                     continue
                 gl.append(("O", name, items, []))
                 continue
-            style = wr.choice(["segments", "edges", "alternating", "mixed", "nested", "nested"])
+            style = wr.choice(["segments", "edges", "alternating", "mixed", "nested", "nested", "nested2", "nested2"])
             nested_info = None
+            if style == "nested2" and len(walk) >= 5:
+                cnt = [0]
+
+                def mk_name(gno=gno, cnt=cnt):
+                    cnt[0] += 1
+                    return "r%d_%d" % (gno, cnt[0])
+                items = nest(wr, walk, edges, 2, True, True, simple(walk), mk_name, gl, groups)
+                tags = wr.choice([[], ["xa:i:1"]])
+                gl.append(("O", name, items, tags))
+                groups.append({"rt": "O", "name": name, "expect": walk, "style": "nested2"})
+                walks[name] = walk
+                continue
             if style == "nested" and len(walk) >= 5 and walks is not None:
                 # a sub-walk becomes its own path, referenced with + or -
                 nsegs = (len(walk) + 1) // 2
@@ -227,7 +292,7 @@ def gen(streams, tier, i):
             walks[name] = walk
         else:
             name = "u%d" % gno
-            pool = segs + [e[0] for e in edges] + [g["name"] for g in groups if g["expect"] != "error"]
+            pool = segs + [e[0] for e in edges if e[0][:1] != "*"] + [g["name"] for g in groups if g["expect"] != "error"]
             items = [wr.choice(pool) for _ in range(wr.randint(1, 5))]
             items = [x for x in items if x != name]
             gl.append(("U", name, items, wr.choice([[], ["xa:i:1"], ["xc:A:c", "xf:J:[]"], ["xa:i:0", "xd:f:0.0"]])))
@@ -265,7 +330,7 @@ def gen(streams, tier, i):
     # captured path / induced set (the answer then may be an error: the definition is incomplete)
     peeks = sorted(set(sr.randrange(len(all_lines)) for _ in range(sr.choice([0, 0, 1, 2, 4])))) if all_lines else []
     return {"cfg": {"vlevel": cfg.choice([0, 1, 1, 2, 3]), "order": mode, "conflict": conflict, "peeks": peeks},
-            "lines": all_lines, "edges": [list(e) for e in edges], "groups": groups,
+            "lines": all_lines, "edges": [list(e) for e in edges], "edge_lines": edge_lines, "groups": groups,
             "ops": [{"op": "order", "perm": perm}]}
 
 
@@ -386,6 +451,12 @@ def run(scn, st):
                     continue
                 walk = grp["expect"]
                 style = grp.get("style", "?")
+                if style == "nested2":
+                    st.count("probe.nested2")
+                    if any(x[:1] == "r" and x[-1:] == "-" for x in got_items):
+                        st.count("probe.nested2_minus")
+                if style == "sub" and (got_items[0][:1] == "e" or got_items[-1][:1] == "e") and len(got_items) > 1:
+                    st.count("probe.sub_edge_boundary")
                 st.count("probe.style_" + style if style in ("segments", "edges", "alternating", "mixed") else
                          ("probe.nested_plus" if style == "nested+" else "probe.nested_minus" if style == "nested-" else "probe.style_alternating"))
                 if len(walk) >= 7:
@@ -434,11 +505,18 @@ def run(scn, st):
                     raise core.Violation("induced-segments-differ", "set %s items %r: induced segments %r, expected %r" %
                                          (name, grp["items"], gs, ws))
                 ies = core.call(lambda: l.induced_edges_set)
-                we = sorted(e[0] for e in edges if e[1] in ws and e[3] in ws)
-                if not ies.ok or sorted(x.name for x in ies.value) != we:
+                # edges are compared by their written form (an edge may have no identifier)
+                etext = scn.get("edge_lines") or dict((e[0], e[0]) for e in edges)
+                byname = "edge_lines" not in scn
+                we = sorted(etext[e[0]] for e in edges if e[1] in ws and e[3] in ws)
+                if any(e[0][:1] == "*" for e in edges if e[1] in ws and e[3] in ws):
+                    st.count("probe.unnamed_edge_induced")
+                ge = sorted((x.name if byname else ob.line_text(x)) for x in ies.value) if ies.ok else None
+                if not ies.ok or ge != we:
                     raise core.Violation("induced-edges-differ", "set %s: induced edges %r, expected %r" %
-                                         (name, sorted(x.name for x in ies.value) if ies.ok else ies.excname, we))
+                                         (name, ge if ies.ok else ies.excname, we))
                 full = core.call(lambda: l.induced_set)
-                if not full.ok or sorted(x.name for x in full.value) != sorted(ws + we):
+                gf = sorted((x.name if (byname or x.record_type == "S") else ob.line_text(x)) for x in full.value) if full.ok else None
+                if not full.ok or gf != sorted(ws + we):
                     raise core.Violation("induced-set-differs", "set %s: induced_set inconsistent with its parts" % name)
                 st.state(digest(["set", gs, we]))
